@@ -709,7 +709,7 @@ func runCaseInner(c *caseT) string {
 		default:
 			ret = "err"
 		}
-	case <-time.After(700 * time.Millisecond):
+	case <-time.After(1500 * time.Millisecond):
 	}
 
 	ack, rest := readAck(r.cli.snapshot())
